@@ -730,7 +730,7 @@ func ReadGroundWaterTimeSeries(g *GlobalVarsMain, hPath *HFilePath, sid string) 
 }
 
 func HasPrefixWithSeperator(s, prefix string) bool {
-	return len(s) >= len(prefix) && s[0:len(prefix)] == prefix && (s[len(prefix)] == ',' || s[len(prefix)] == ';' || s[len(prefix)] == ' ')
+	return len(s) > len(prefix) && s[0:len(prefix)] == prefix && (s[len(prefix)] == ',' || s[len(prefix)] == ';' || s[len(prefix)] == ' ')
 }
 
 // GetGroundWaterLevel returns ground water level for a given date
